@@ -83,7 +83,7 @@ func ValidateResponse(ctx context.Context, input *ResponseValidationInput) error
 	sort.Strings(headers)
 	for _, headerName := range headers {
 		headerRef := response.Headers[headerName]
-		if err := validateResponseHeader(headerName, headerRef, input, opts); err != nil {
+		if err := validateResponseHeader(headerName, headerRef, input, append(opts, openapi3.VisitAsResponse())); err != nil {
 			return err
 		}
 	}
